@@ -436,9 +436,9 @@ pub fn run(run: &mut Run) {
     };
     run_universes(run, &l1, DISAGREE, &check_pos_mid);
     let l0 = if thorough {
-        Sel { ep: Some(true), castle: Some(true), promo: Some(true), reach: Some(4), counters: true, pin2: Some(4), pawncap2: true, promo2: true, clocks: true, multicheck: Some(3), checkpin: Some(3), castle2: true, hist: Some((3, 2)), ..Default::default() }
+        Sel { ep: Some(true), castle: Some(true), promo: Some(true), reach: Some(4), counters: true, pin2: Some(4), pawncap2: true, promo2: true, clocks: true, multicheck: Some(3), checkpin: Some(3), castle2: true, counts: true, hist: Some((3, 2)), ..Default::default() }
     } else {
-        Sel { ep: Some(false), ep_spread_only: true, castle: Some(false), promo: Some(false), reach: Some(3), counters: true, pin2: Some(2), pawncap2: true, multicheck: Some(1), checkpin: Some(1), castle2: true, ..Default::default() }
+        Sel { ep: Some(false), ep_spread_only: true, castle: Some(false), promo: Some(false), reach: Some(3), counters: true, pin2: Some(2), pawncap2: true, multicheck: Some(1), checkpin: Some(1), castle2: true, counts: true, ..Default::default() }
     };
     run_universes(run, &l0, DISAGREE, &check_pos);
     p30_strings(run, if thorough { 4 } else { 3 });
